@@ -1,5 +1,6 @@
 """C13 connect/accept pairing: bounded backlog, FIFO, refusal answered, slots released."""
 from .common import *
+from utpsa.flow import describe_cond
 from .c12 import D, fn_bodies
 from utpsa.wake import variant_of_edge
 
@@ -489,3 +490,38 @@ def c13_8(R):
             R.ok("recv-only-if-none-parked", b.name, "try_recv() under next_available_acceptor.take() = None")
         else:
             R.fail([b.name, "try_recv-not-under(parked=None)"], "a request is received from the accept channel even when a parked acceptor is handed out: the received one is dropped and its accept() never returns", where=t.where(), instance="recv-only-if-none-parked")
+
+
+@rule("C13.9", ["C13"], ["E2", "E7"], "a parked SYN that could not be paired goes back to the head of the backlog",
+      "Dispatcher::cleanup_accept_queue pops the oldest parked SYN and tries to pair it. Whenever the attempt hands the SYN back - no acceptor is waiting, the acceptor turned out to be dead "
+      "(ReceiverDead), the table is full (Full) - every way on (next iteration or return) passes syns.push_front: otherwise the connection request is silently lost and, being the oldest, "
+      "its initiator waits for a SYN-ACK that will never come.")
+def c13_9(R):
+    from utpsa.flow import must_pass_blocks
+    b = R.body("socket::Dispatcher::cleanup_accept_queue")
+    pf = {t.bb for t in b.calls() if call_matches(t, ("VecDeque::push_front",)) and t.args and trace(b, t.args[0]).last_field == "AcceptQueue.syns"}
+    R.floor("syns.push_front sites in cleanup_accept_queue", len(pf), 3)
+    heads = {v for (_u, v) in b.back_edges()}
+    stops = set(b.return_blocks()) | heads
+    n = 0
+    for blk in b.blocks:
+        if blk.cleanup or blk.term.kind != "switch":
+            continue
+        for tgt, lab in b.edges(blk.idx):
+            d = describe_cond(b, blk.term, lab)
+            what = None
+            if d.startswith("discr:") and d.endswith(("=ReceiverDead", "=Full")) and "match_syn_with_accept" in d:
+                what = d.rsplit("=", 1)[1]
+            elif d.startswith("discr:") and "try_next_acceptor" in d and d.endswith("=None"):
+                what = "no-acceptor"
+            if what is None:
+                continue
+            n += 1
+            reach = b.reachable(tgt, removed_blocks=pf)
+            lost = [x for x in stops if x in reach and x != tgt] if tgt not in pf else []
+            if not lost:
+                R.ok("handed-back-syn-requeued", "%s (%s)" % (b.name, what), "every way on passes syns.push_front")
+            else:
+                R.fail([b.name, "syn-not-requeued", what], "after the pairing attempt handed the SYN back (%s) cleanup_accept_queue can go on without syns.push_front: the oldest pending connection request is dropped" % what,
+                       where=blk.term.where(), instance="handed-back-syn-requeued")
+    R.floor("hand-back outcomes in cleanup_accept_queue", n, 3)
